@@ -807,3 +807,37 @@ Proof.
   repeat split; try reflexivity.
   intros [H | []]. discriminate H.
 Qed.
+
+(* ---- order of the two reads inside one fetch ------------------------------------------ *)
+
+(* what a worker can do: the text only grows, never beyond the final text, and
+   the process has exited only when everything is written *)
+Definition worker_trace (total : nat) (tr : list snapshot) : Prop :=
+  forall a b, (a <= b < length tr)%nat ->
+    (sn_written (nth a tr snap0) <= sn_written (nth b tr snap0) <= total)%nat /\
+    (sn_exited (nth a tr snap0) = true -> sn_written (nth a tr snap0) = total).
+
+Theorem fetch_status_first_complete cs tr i j :
+  noise_ok cs = true -> payloads_ok cs = true ->
+  worker_trace (length (render cs)) tr -> (i <= j < length tr)%nat ->
+  fst (fetch_status_then_text cs tr i j) = true ->
+  snd (fetch_status_then_text cs tr i j) = payloads_of cs.
+Proof.
+  intros Hn Hp Htr Hij Hex. unfold fetch_status_then_text in *. cbn [fst snd] in *.
+  destruct (Htr i j Hij) as [[Hle Htot] Hdone]. specialize (Hdone Hex).
+  rewrite polling_prefixes by assumption. apply delivered_upto_all. lia.
+Qed.
+
+Lemma fetch_text_first_refuted :
+  exists cs tr i j, noise_ok cs = true /\ payloads_ok cs = true /\
+    worker_trace (length (render cs)) tr /\ (i <= j < length tr)%nat /\
+    fetch_text_then_status cs tr i j = (true, []) /\ payloads_of cs <> [].
+Proof.
+  exists cut_witness,
+         [{| sn_written := 0; sn_exited := false |}; {| sn_written := 39; sn_exited := true |}],
+         0%nat, 1%nat.
+  split; [reflexivity|]. split; [reflexivity|]. split; [|split; [cbn; lia|split; [reflexivity|discriminate]]].
+  intros a b Hab. cbn [length] in Hab.
+  assert (Ha : a = 0%nat \/ a = 1%nat) by lia. assert (Hb : b = 0%nat \/ b = 1%nat) by lia.
+  destruct Ha as [-> | ->], Hb as [-> | ->]; try lia; cbn; (split; [lia|]); intro H; try discriminate H; reflexivity.
+Qed.
